@@ -185,7 +185,11 @@ class Real:
         return res
 
     def match(self, pat, con):
-        return bool(concrete(pat).match(concrete(con)))
+        """Encoding.match on the real objects: True / False, or the name of the exception it raised."""
+        try:
+            return bool(concrete(pat).match(concrete(con)))
+        except Exception as exc:  # pylint: disable=broad-except
+            return type(exc).__name__
 
 
 # ----------------------------------------------------------------------------------------------- spec -> code
@@ -264,9 +268,11 @@ def replay_model(chk, real, res, rnd, spellings, stats):
                 break
         if not failed:
             chk.validated()
-            if states % 4999 == 1:
+            outcome = (len(exp['hdr']), tuple(exp['enc']))
+            if outcome not in stats['sampled'] and len(exp['hdr']) > 1 and states % 7 == 3:
+                stats['sampled'].add(outcome)
                 chk.sample({'header': render(exp['hdr'], rnd), 'parsed': show(exp['parsed']),
-                            'encoder': show([encoders[e - 1] for e in exp['enc']]) or 'Unsupported'})
+                            'allowed_encoders': show([encoders[e - 1] for e in exp['enc']]) or 'Unsupported'})
     return states
 
 
@@ -386,7 +392,11 @@ def trace_validation(chk, real, rnd):
     pairs = []
     for _ in range(n_pair):
         p, c = random_pair(rnd)
-        pairs.append({'p': p, 'c': c, 'm': real.match(p, c)})
+        got = real.match(p, c)
+        if not isinstance(got, bool):  # TLC judges booleans; a raising match is a failure whatever the expectation
+            chk.fail(f'match: pattern {show([p])} vs {show([c])} raised {got}', {'kind': 'match', 'p': p, 'c': c, 'm': None})
+            continue
+        pairs.append({'p': p, 'c': c, 'm': got})
     tables, tabmeta = [], []
     for _ in range(n_tab):
         kinds, rows = random_table(rnd)
@@ -478,10 +488,10 @@ def main(chk):
     rnd = random.Random(chk.seed)
     tmp = os.getcwd()
     real = Real()
-    stats = {'drift': 0, 'headers': 0, 'pairs': 0, 'encoders': None}
+    stats = {'drift': 0, 'headers': 0, 'pairs': 0, 'encoders': None, 'sampled': set()}
     acts = ['AddDefault', 'AddWeighted']
     spellings = 3 if chk.quick else 6
-    workers = 8
+    workers = int(os.environ.get('VERIF_WORKERS') or 8)  # TLC workers of the exhaustive runs
 
     # ---- 1. spec -> code: all headers of <= 2 ranges over the full constants (+ the Match table, + codec tables)
     res = chk.tlc('Negotiation', cfg_neg(os.path.join(tmp, 'full2.cfg'), 2, 'KindsFull', 'OptsFull', 'QsFull'),
@@ -490,14 +500,16 @@ def main(chk):
     if exported != res.distinct - 1 or not stats['pairs']:
         raise tlc.MachineryError(f'Negotiation export incomplete: {exported} of {res.distinct - 1} states, {stats["pairs"]} pairs')
     # ---- 2. all headers of 3 ranges over reduced constants (interplay of three ranges: ties among three, first match)
-    kinds, opts, qs = ('KindsSmall', 'OptsSmall', 'QsSmall') if chk.quick else ('KindsFull', 'OptsMid', 'QsSmall')
+    kinds, opts, qs = ('KindsFull', 'OptsSmall', 'QsSmall') if chk.quick else ('KindsFull', 'OptsMid', 'QsSmall')
     res = chk.tlc('Negotiation', cfg_neg(os.path.join(tmp, 'three.cfg'), 3, kinds, opts, qs, export=3),
                   require=acts, workers=workers)
     exported += replay_model(chk, real, res, rnd, spellings, stats)
-    # ---- 3. thorough: 4-5 ranges over the full constants, behaviours drawn by TLC's simulator
+    # ---- 3. thorough: 4-5 ranges over the full constants, behaviours drawn by TLC's simulator (the simulator evaluates
+    #         the invariants - hence Export - on EVERY successor of the states it walks through: one behaviour exports
+    #         2 x |Ranges| headers sharing a random prefix; num is per worker)
     if not chk.quick:
         res = chk.tlc('Negotiation', cfg_neg(os.path.join(tmp, 'sim5.cfg'), 5, 'KindsFull', 'OptsFull', 'QsFull', export=4),
-                      simulate='num=15000', depth=6, seed=chk.seed + 1, workers=4, coverage=False)
+                      simulate='num=50', depth=6, seed=chk.seed + 1, workers=4, coverage=False, timeout=900)
         sim = replay_model(chk, real, res, rnd, spellings, stats)
         if sim < 1000:
             raise tlc.MachineryError(f'simulation exported only {sim} headers')
@@ -551,7 +563,7 @@ def replay(chk, path):
     if rep['kind'] == 'match':
         got = real.match(rep['p'], rep['c'])
         print('observed now:', got, 'expected', rep['m'])
-        return 1 if got != rep['m'] else 0
+        return 1 if (got != rep['m'] if rep['m'] is not None else not isinstance(got, bool)) else 0
     if rep['kind'] == 'table':
         obs = csv_roundtrip(real, rep['kinds'], rep['rows'])
         print('observed now:', obs)
